@@ -879,6 +879,9 @@ func (e *Env) callref(x *SExpr) Term {
 	if x.Name == "called" {
 		css, err := fe.findCalls(x.Str)
 		if err != nil {
+			if strings.HasPrefix(err.Error(), "no call to") {
+				return boolT("false") // no such call site at all: it is never called
+			}
 			e.fail("%v", err)
 		}
 		var rs []string
